@@ -245,7 +245,7 @@ var depthLeaves = []struct {
 	{`(new Date(0), 0)`, 0},
 	{`(new (function(){ this.a = 0 })()).a`, 1}, // [[Construct]] of a script function: its function scope
 	{`({get p(){ return 0 }}).p`, 1},            // a getter is a call
-	{`eval("0")`, 0},                            // direct eval runs in the caller's scope
+	{`eval("0")`, 1},                            // direct eval runs in the caller's scope but counts one level (20d0ecf)
 	{`(0, eval)("0")`, 2},                       // indirect eval: the native call + a global scope
 	{`[0].sort(function(){ return 0 })[0]`, 1},  // the comparefn is never called for one element
 	{`"a".replace("a", function(){ return "0" }) - 0`, 2},
